@@ -693,6 +693,67 @@ func stringSliceVar(fact string, props []string, rel, name string) {
 	fail(fact, props, name+" not found in "+rel)
 }
 
+// gatedRoutes: `<mux>.HandleFunc("<path>", p.withMethods(p.g1(p.g2(p.Handler)), "M1", "M2"))` → one string per route:
+// "<path>|<M1,M2>|<g1,g2>|<Handler>" (gates outermost first)
+func gatedRoutes(fact string, props []string, rel, recv, fn string) {
+	fd := findFunc(parse(rel), recv, fn)
+	if fd == nil || fd.Body == nil {
+		fail(fact, props, fn+" not found in "+rel)
+		return
+	}
+	var outl []string
+	bad := ""
+	ast.Inspect(fd.Body, func(n ast.Node) bool {
+		c, ok := n.(*ast.CallExpr)
+		if !ok {
+			return true
+		}
+		se, ok := c.Fun.(*ast.SelectorExpr)
+		if !ok || se.Sel.Name != "HandleFunc" || len(c.Args) != 2 {
+			return true
+		}
+		lit, ok := c.Args[0].(*ast.BasicLit)
+		if !ok {
+			return true
+		}
+		var methods, gates []string
+		handler := ""
+		cur := c.Args[1]
+		for {
+			call, ok := cur.(*ast.CallExpr)
+			if !ok {
+				handler = exprString(cur)
+				break
+			}
+			name := exprString(call.Fun)
+			name = strings.TrimPrefix(name, "p.")
+			if name == "withMethods" {
+				for _, a := range call.Args[1:] {
+					if bl, ok := a.(*ast.BasicLit); ok {
+						methods = append(methods, unq(bl.Value))
+					}
+				}
+				gates = append(gates, "withMethods")
+			} else {
+				gates = append(gates, name)
+			}
+			if len(call.Args) == 0 {
+				bad = "wrapper without argument at " + unq(lit.Value)
+				break
+			}
+			cur = call.Args[0]
+		}
+		outl = append(outl, "("+leanStr(unq(lit.Value))+", "+leanStrList(methods)+", "+leanStrList(gates)+", "+leanStr(strings.TrimPrefix(handler, "p."))+")")
+		return false
+	})
+	if bad != "" || len(outl) == 0 {
+		fail(fact, props, "routes of "+fn+": "+bad)
+		return
+	}
+	names = append(names, fact)
+	fmt.Fprintf(&out, "/-- serves %s -/\ndef %s : List (String × List String × List String × String) := [%s]\n\n", strings.Join(props, " "), fact, strings.Join(outl, ", "))
+}
+
 func unq(s string) string {
 	u, err := strconv.Unquote(s)
 	if err != nil {
